@@ -88,9 +88,7 @@ class _Permissive(dict):
 
 
 def can_require_filing(form):
-    from habutax.form import InputForm
-    if isinstance(form, InputForm):
-        return False
+    # input-only forms inherit `return False`; one that overrides needs_filing so that it can say yes is fileable like any other
     try:
         probe = bool(form.needs_filing(_Permissive()))
     except Exception:
